@@ -51,15 +51,15 @@ def Inv (s : St) : Prop :=
 instance (s : St) : Decidable (Inv s) := by unfold Inv; infer_instance
 
 /-- Hypothesis on one operation in its pre-state: the operation does not assign a bound across
-    the other bound (open finding D09b), and does not reset the maximum to the default below the
-    current piece length (open finding D09c).  `None` assigns the class default. -/
+    the other bound (open finding D09b).  `None` assigns the class default (for the minimum that
+    is the smallest legal value, which can never lie above a legal maximum: no clause). -/
 def OpOk (s : St) : Op → Prop
   | .setMin (some x) => divisible x = true → x ≤ (s.pmax : Int)
   | .setMax (some x) => divisible x = true → (s.pmin : Int) ≤ x
-  | .setMax none => s.pmin ≤ defaultMax ∧ (match s.pl with | some pl => pl ≤ defaultMax | none => True)
+  | .setMax none => s.pmin ≤ defaultMax
   | _ => True
 instance (s : St) (op : Op) : Decidable (OpOk s op) := by
-  unfold OpOk; split <;> first | infer_instance | (split <;> infer_instance)
+  unfold OpOk; split <;> infer_instance
 
 /-- every operation of a history satisfies `OpOk` in the state it is applied to -/
 def AllOk (env : Env) : St → List Op → Prop
@@ -72,5 +72,37 @@ def AllOk.dec (env : Env) : (s : St) → (ops : List Op) → Decidable (AllOk en
     have := AllOk.dec env (apply env s op).1 ops
     inferInstanceAs (Decidable (OpOk s op ∧ AllOk env (apply env s op).1 ops))
 instance (env : Env) (s : St) (ops : List Op) : Decidable (AllOk env s ops) := AllOk.dec env s ops
+
+/-- a value the bound setters accept (`None` or a positive multiple of 16 KiB) -/
+def legalBound : Option Int → Bool
+  | none => true
+  | some x => divisible x
+
+/-- `op'` assigns an accepted value to the same bound as `op` -/
+def sameBound : Op → Op → Bool
+  | .setMin _, .setMin v' => legalBound v'
+  | .setMax _, .setMax v' => legalBound v'
+  | _, _ => false
+
+/-- Weaker hypothesis on a history (narrows D09b): every operation satisfies `OpOk`, except that
+    a bound assignment may do anything — cross the other bound, raise — if the *next* operation
+    assigns the same bound a legal value that does not cross the other bound (judged in the state
+    before both; neither changes the other bound). -/
+def AllOkC (env : Env) : St → List Op → Prop
+  | _, [] => True
+  | s, [op] => OpOk s op
+  | s, op :: op' :: ops =>
+    (OpOk s op ∧ AllOkC env (apply env s op).1 (op' :: ops)) ∨
+    (sameBound op op' = true ∧ OpOk s op' ∧ AllOkC env (apply env (apply env s op).1 op').1 ops)
+
+def AllOkC.dec (env : Env) : (s : St) → (ops : List Op) → Decidable (AllOkC env s ops)
+  | _, [] => isTrue True.intro
+  | s, [op] => inferInstanceAs (Decidable (OpOk s op))
+  | s, op :: op' :: ops =>
+    have := AllOkC.dec env (apply env s op).1 (op' :: ops)
+    have := AllOkC.dec env (apply env (apply env s op).1 op').1 ops
+    inferInstanceAs (Decidable ((OpOk s op ∧ AllOkC env (apply env s op).1 (op' :: ops)) ∨
+      (sameBound op op' = true ∧ OpOk s op' ∧ AllOkC env (apply env (apply env s op).1 op').1 ops)))
+instance (env : Env) (s : St) (ops : List Op) : Decidable (AllOkC env s ops) := AllOkC.dec env s ops
 
 end Torf.Attrs
